@@ -399,7 +399,23 @@ def check_abort(ctx: Ctx, cases: List[dict]) -> None:
                               {"aborted_exchange": ab["at"], "instances_started": len(res["apps"]), "noticed": labels[noticed], "started_after": late[:3],
                                "paths": [a["scope"].get("path") for a in res["apps"]], "closed_at": res["closed_at"]}, sig)
             if res["closed_at"] is None:
-                ctx.violation("abort_not_closed", wcase, {"aborted_exchange": ab["at"], "noticed": labels[noticed], "handler_done": res["handler_done"]}, sig)
+                # F08 (known, C03/C07/C06): the failed write happens inside the application's own send(); the protocol is told
+                # `Closed`, the stream's http.disconnect put waits on a queue full of request-body messages that only this very
+                # task would read (and the reader waits behind it): `Closed` is never reached.  Attributed when the application
+                # is held in a send and at least max_app_queue_size = 10 body messages it never took were on their way
+                k = ab["at"]
+                calls = sum(1 for l in labels if l[1] == "appSendCall" and l[2] == k)
+                rets = sum(1 for l in labels if l[1] == "appSendRet" and l[2] == k)
+                rq = reqs[k]
+                if rq["chunks"] is not None:
+                    pieces = sum(len(c) for c in rq["chunks"]) if case["split"] == "bytewise" else len(rq["chunks"])
+                else:
+                    pieces = len(rq["body"]) if case["split"] == "bytewise" else (len(rq["body"]) + 65535) // 65536
+                unread = pieces - sum(1 for m in res["apps"][k]["recv"] if m[1] == "http.request")
+                f08 = calls > rets and unread >= 10
+                ctx.violation("abort_not_closed", wcase, {"aborted_exchange": ab["at"], "noticed": labels[noticed], "handler_done": res["handler_done"],
+                                                         "application_held_in_send": calls > rets, "unread_body_messages": unread},
+                              {**sig, **({"blocked_put": "disconnect"} if f08 else {})})
 
 
 def check_e2e(ctx: Ctx, cases: List[dict]) -> None:
